@@ -112,9 +112,16 @@ def path_must(logic, path, upto=None, depth=1):
     locations are not written in between -- each rule says so)."""
     out = set()
     evs = path.events if upto is None else path.events[:upto]
+    from ..skel import _track_consts, _subst
+    cenvs = {}        # per frame: boolean flag locals as they were last assigned on this path
     for e in evs:
+        if e.kind == 'stmt' and e.node is not None and isinstance(e.node, (ast.Assign, ast.AugAssign, ast.AnnAssign)):
+            _track_consts(e.node, cenvs.setdefault(id(e.frame), {}))
         if e.kind == 'test':
-            alts = logic.dnf(e.node, e.frame, e.pol, depth=depth)
+            node = _subst(e.node, cenvs.get(id(e.frame)) or {})
+            if isinstance(node, ast.Constant):
+                continue
+            alts = logic.dnf(node, e.frame, e.pol, depth=depth)
             if alts:
                 common = set(alts[0])
                 for a in alts[1:]:
